@@ -7,7 +7,8 @@ package storage
 //
 // Hostile inputs are built structure-aware: a client "Records" blob is a 61-byte batch
 // header followed by records, and the broker stores it unchanged (cmd/broker handleProduce
-// only reads base offset / lastOffsetDelta / record count from the header). So every
+// only reads base offset / lastOffsetDelta / record count from the header and requires
+// recordCount == lastOffsetDelta+1). So every
 // length / count field below is attacker-controlled in a broker-written segment.
 
 import (
@@ -232,6 +233,11 @@ func c34Batches(t *rapid.T, hostile bool, d *c34Desc) [][]byte {
 					v = 1 << 20
 				}
 				b.NumRecords = int32(v)
+				if v >= 1 {
+					// keep the header self-consistent (lastOffsetDelta == recordCount-1): the produce
+					// path rejects anything else, and a client can set both fields
+					b.LastOffsetDelta = int32(v - 1)
+				}
 				d.Field, d.ValClass, d.Value = "reccount", vc, v
 			case "compression":
 				b.Attributes = int16(rapid.IntRange(1, 7).Draw(t, "codec"))
